@@ -15,7 +15,7 @@ pub fn meta(tier: &str) -> CheckMeta {
     let q = tier == "quick";
     CheckMeta {
         id: "C07", level: "model_checking",
-        rule: "E-hist under sanitizers: this check runs in the `asan` flavour (C runtime, generated parsers and scanners compiled with -fsanitize=address,undefined; ts_assert live) with a counting allocator installed through ts_set_allocator. (1) the explorers of C01 C02 C04 C06 C08 C09 C10 C13 are re-run unchanged on fixed smaller boxes (quick: their `mini` boxes; thorough: their full quick boxes), including cancelled-and-abandoned parses; after each, every handle is dropped and the number of live allocations must return to the baseline; (2) every API call history up to depth d over an 18-operation alphabet (parse, re-parse, extreme edits, copy, delete, valid/invalid ranges, cancel, resume, reset, drop parser, other language, query new/matches/captures/remove/limit, cursor walk, logger) on 3 documents and 2 languages, each replayed from scratch with the allocation balance checked at the end; (3) Query::new on every string of <=n atoms over 14 query-syntax atoms, executing the accepted ones. Any sanitizer report, assertion failure, crash, foreign/double free or leak is a violation. Non-trivial = history containing a cancellation, an extreme edit or a rejected call / query source that is rejected.",
+        rule: "E-hist under sanitizers: this check runs in the `asan` flavour (C runtime, generated parsers and scanners compiled with -fsanitize=address,undefined; ts_assert live) with a counting allocator installed through ts_set_allocator. (1) the explorers of C01 C02 C04 C05 C06 C08 C09 C10 C11 C13 are re-run unchanged on fixed smaller boxes (quick: their `mini` boxes; thorough: their full quick boxes), including cancelled-and-abandoned parses; after each, every handle is dropped and the number of live allocations must return to the baseline; (2) every API call history up to depth d over an 18-operation alphabet (parse, re-parse, extreme edits, copy, delete, valid/invalid ranges, cancel, resume, reset, drop parser, other language, query new/matches/captures/remove/limit, cursor walk, logger) on 3 documents and 2 languages, each replayed from scratch with the allocation balance checked at the end; (3) Query::new on every string of <=n atoms over 14 query-syntax atoms, executing the accepted ones. Any sanitizer report, assertion failure, crash, foreign/double free or leak is a violation. Non-trivial = history containing a cancellation, an extreme edit or a rejected call / query source that is rejected.",
         assumptions: vec!["Rust std and the engine itself are not instrumented; only the C runtime, generated parsers and scanners are".into(), "uninitialised reads are covered by the separate valgrind memcheck pass of the thorough tier (plain flavour, mini box, evidence file C07-valgrind.json), not by the sanitizer run".into()],
         exhaustive: true,
         bounds: json!({"sub_explorer_tier": if q || tier == "mini" { "mini" } else { "quick" }, "api_history_depth": if tier == "mini" { 2 } else if q { 3 } else { 4 }, "query_atoms": if tier == "mini" { 3 } else if q { 4 } else { 5 }, "valgrind_memcheck": std::env::var("VF_VALGRIND").is_ok()}),
@@ -165,7 +165,7 @@ pub fn worker(ctx: &Ctx, res: &mut ShardResult) {
     };
     // (1) the other explorers, unchanged, on fixed smaller boxes
     let sub_tier = if ctx.quick() { "mini" } else { "quick" };
-    for id in ["C01", "C02", "C04", "C06", "C09", "C10", "C13", "C08"] {
+    for id in ["C01", "C02", "C04", "C06", "C09", "C10", "C13", "C05", "C11", "C08"] {
         let c2 = Ctx { id: id.to_string(), tier: sub_tier.to_string(), seed: ctx.seed, shard: ctx.shard, nshards: ctx.nshards, deadline: ctx.deadline };
         let mut scratch = ShardResult::new();
         crate::checks::worker(&c2, &mut scratch);
